@@ -128,6 +128,27 @@ theorem C08_member_unpack (crc : Bytes → Nat) (dec : Nat → Bytes → Option 
   simp only [extractMember]
   rw [hdec]; simp [hsz, hck]
 
+/-- **exclusion works on full member paths**: zip and LZX hand the whole member path to `libxmp_exclude_match`, and
+    `fnmatch(…, 0)` lets `*` run across '/'.  A name accepted by one of the generated `*…` patterns stays excluded
+    behind every directory prefix (patterns without `*`, e.g. `README`, match the whole path only). -/
+theorem C08_exclude_path_prefix (pre name : Bytes)
+    (h : ∃ g ∈ excludeGlobs, g.head? = some cStar ∧ globFn g name = true) : excludeMatch (pre ++ name) = true := by
+  obtain ⟨g, hg, hs, hm⟩ := h
+  unfold excludeMatch
+  rw [List.any_eq_true]
+  refine ⟨g, hg, ?_⟩
+  cases g with
+  | nil => simp at hs
+  | cons c r =>
+    simp only [List.head?_cons, Option.some.injEq] at hs
+    subst hs
+    exact globFn_star_prefix r pre name hm
+
+/-- `docs/info.txt`, `a/b/FILE_ID.DIZ`: excluded through the theorem; `docs/README` is not (no `*` in that pattern) -/
+example : excludeMatch ([0x64, 0x6f, 0x63, 0x73, 0x2f] ++ [0x69, 0x6e, 0x66, 0x6f, 0x2e, 0x74, 0x78, 0x74]) = true :=
+  C08_exclude_path_prefix _ _ ⟨[42, 46, 116, 120, 116], by decide, by decide, by decide⟩
+example : excludeMatch [0x64, 0x6f, 0x63, 0x73, 0x2f, 0x52, 0x45, 0x41, 0x44, 0x4d, 0x45] = false := by decide
+
 /-- "README", "file_id.diz" and "x.txt" are excluded by the generated globs, "test.xm" is not -/
 example : excludeMatch [0x52, 0x45, 0x41, 0x44, 0x4d, 0x45] = true := by decide
 example : excludeMatch [0x66, 0x69, 0x6c, 0x65, 0x5f, 0x69, 0x64, 0x2e, 0x64, 0x69, 0x7a] = true := by decide
